@@ -22,6 +22,7 @@ SHAPES = {
     "Optional[str]": [NONE, "x"],
     "Literal['x', 'y']": [ABSENT, "x"],
     "Literal['http1', 'adam_w', 'q-r']": [ABSENT, "adam_w"],
+    "Literal[0, 1, 2]": [ABSENT, 1],
     "List[str]": [ABSENT],
     "Union[int, str]": [ABSENT, 3],
     "dict": [ABSENT],
